@@ -310,23 +310,37 @@ def parse_log(path):
                         rec[k] = v
         out.append(rec)
     out.sort(key=lambda r: r["seq"])
-    return out
+    return Trace(out)
 
 
 def ops_between(trace, start_label, end_label):
     """calls of the thread that emitted `start_label`, between that mark and `end_label` (same thread)"""
-    for i, r in enumerate(trace):
-        if r["call"] == "mark" and r.get("label") == start_label:
-            tid, pid = r["tid"], r["pid"]
-            out = []
-            for q in trace[i + 1:]:
-                if q["tid"] != tid or q["pid"] != pid:
-                    continue
-                if q["call"] == "mark" and q.get("label") == end_label:
-                    return out
-                out.append(q)
+    idx = getattr(trace, "mark_index", None)
+    if idx is None:
+        idx = {}
+        for i, r in enumerate(trace):
+            if r["call"] == "mark":
+                idx.setdefault(r.get("label"), i)
+        try:
+            trace.mark_index = idx
+        except AttributeError:
+            pass
+    i = idx.get(start_label)
+    if i is None:
+        return None
+    tid, pid = trace[i]["tid"], trace[i]["pid"]
+    out = []
+    for q in trace[i + 1:i + 4000]:
+        if q["tid"] != tid or q["pid"] != pid:
+            continue
+        if q["call"] == "mark" and q.get("label") == end_label:
             return out
-    return None
+        out.append(q)
+    return out
+
+
+class Trace(list):
+    pass
 
 
 # ---------------------------------------------------------------- findings, evidence, verdict
